@@ -385,6 +385,22 @@ CLAIMED['C05']['text'] = CLAIMED['C05']['text'].replace(
     'without mappings (`covered`);')
 CLAIMED['C05']['text'] = CLAIMED['C05']['text'] + (
     ' A shared-strings family runs every history in a fresh process and again in a long-lived one (process-global state).')
+
+CLAIMED['C04']['text'] = (
+    'Theorems over small-step machines {state; bounds; tighten} mirroring tighten_bounds()/bounds() of the Bounded classes, with the '
+    'STRICT contract (never widens / sound / True => strictly shrunk / False => single value and unchanged / finitely many True steps): '
+    'machine-checked for ConstantCostEdit, the sum combinator (KeyValuePairEdit, XML/DataClass/PyObj), repeat_until_tightened + '
+    'FixedLengthSequenceEdit, EditDistance/StringEdit, EditCollection/FixedKeyDictNodeEdit, WeightedBipartiteMatcher + MultiSetEdit '
+    '(make_distinct and the solver as oracles, all answers), their nesting over documents (C04_docs), UNCONDITIONALLY for all '
+    'well-formed documents without multisets (C04_docs_none_all, C04_guard_bound_all: the budget guard of FixedKeyDictNodeEdit always '
+    'passes; rests on the translated flag leaf_match_cost_capped = the repair of D41, discharged by reflexivity, so reverting the source '
+    'breaks the discharge), Apple plist roots (C04_plist_root) and the IterativeTighteningSearch model over sound strictly shrinking items '
+    '(C04_search, tied to search.py by C17\'s correspondence). Conditional or trace-only: multisets with repeated elements (D36, open), '
+    'MultiSetEdit below a FixedKeyDictNodeEdit (computed guard; cannot come from files), plist roots under -k (EditCollection.__len__ '
+    'side effect), PossibleEdits\' pruning of invalid alternatives. Tie: every Bounded object created during diff(), get_all_edits() and '
+    'explicit drives is wrapped from outside; holds_C04 on its trace, corr_C04 = the model machine (fed the recorded oracle answers) '
+    'reproduces the exact bounds/flag sequence of the root edit. Found D23, D24, D25, D41 (all repaired).')
+CLAIMED['C04']['note'] = CLAIMED['C04']['note'].replace(' Open findings: D36, D41.', ' Open finding: D36.')
 NOT_YET = 'model and theorem not completed yet (DESIGN.md section 7)'
 NA = {}
 
